@@ -182,6 +182,9 @@ def run(tier):
         specs.append(dict(kind=["white", "red", "alpha", "pink"][k % 4], seed=rnd.randrange(2 ** 31), settled=bool(k % 3 == 0), sizes=sizes))
     for k in range(4):             # runs of single samples across several refills of the real 4096-sample prefetch buffer
         specs.append(dict(kind=["white", "red", "alpha", "pink"][k], seed=(0 if k % 2 else rnd.randrange(2 ** 31)), settled=False, sizes=[1, 4095, 1, 4096, 3000], by_sample=True))
+    for k in range(4 if tier == "thorough" else 2):   # totals beyond 2^22 samples in one request against the same total in chunks
+        specs.append(dict(kind=["white", "alpha", "red", "pink"][(k + sd) % 4], seed=rnd.randrange(2 ** 31), settled=False,
+                          sizes=[2 ** 21, 3, 2 ** 21 + 1, 4097] if k % 2 == 0 else [2 ** 22, 1, 70000]))
     trs = common.pmap(record_long, specs, chunksize=1)
     vd, tres = traces.validate("NoiseTrace", f"{PID}_trace", trs)
     V.model(tres, "NoiseTrace.tla (long random call sequences)")
